@@ -129,3 +129,170 @@ package server
 //@ modifies client.serverReceiveMaximumQuota
 //@ ensures [C13] client.serverReceiveMaximumQuota == min(old(client.serverReceiveMaximumQuota) + 1, int(client.opts.ReceiveMax))
 //@ ensures [C13] client.serverReceiveMaximumQuota <= client.opts.ReceiveMax
+
+// ---------------------------------------------------------------------------
+// CONNECT path: option defaults, authentication path selection, CONNACK (C05, C13, C19).
+
+// defaultAuthOptions (C05): v5 sessions expire after min(requested, configured) seconds, 0 if the property is
+// absent; v3 sessions get the configured interval.
+//@ spec func failing(e error) bool = e.(type *codes.Error) ==> e.(*codes.Error) != nil && e.(*codes.Error).Code >= 128
+//@ spec func cfgSecs(d time.Duration) int = (int(d) / 1000000000) % 4294967296
+//@ func (*client).defaultAuthOptions
+//@ props C05 C13
+//@ requires client != nil && connect != nil && client.config.MQTT.SessionExpiry >= 0 && (client.version == 5 ==> connect.Properties != nil)
+//@ ensures [C05] result != nil && isfresh(result)
+//@ ensures [C05] client.version == 5 && connect.Properties.SessionExpiryInterval == nil ==> result.SessionExpiry == 0
+//@ ensures [C05] client.version == 5 && connect.Properties.SessionExpiryInterval != nil ==> int(result.SessionExpiry) == min(int(*connect.Properties.SessionExpiryInterval), cfgSecs(client.config.MQTT.SessionExpiry))
+//@ ensures [C05] client.version != 5 ==> int(result.SessionExpiry) == cfgSecs(client.config.MQTT.SessionExpiry)
+//@ ensures [C13] result.ReceiveMax == client.config.MQTT.ReceiveMax && result.MaxPacketSize == client.config.MQTT.MaxPacketSize && result.TopicAliasMax == client.config.MQTT.TopicAliasMax && result.MaxInflight == client.config.MQTT.MaxInflight
+//@ ensures [C13] result.KeepAlive == min(connect.KeepAlive, client.config.MQTT.MaxKeepAlive)
+
+// Authentication hooks (universally quantified): $basic / $enh count the invocations, $basicErr / $enhErr /
+// $enhResp record the verdicts. A hook may edit the options it is handed, nothing else of the broker core.
+//@ ghost field (Hooks).basic int
+//@ ghost field (Hooks).basicErr error
+//@ ghost field (Hooks).enh int
+//@ ghost field (Hooks).enhErr error
+//@ ghost field (Hooks).enhResp *EnhancedAuthResponse
+
+//@ func field (Hooks).OnBasicAuth
+//@ params self, ctx, cli, req
+//@ requires req != nil && req.Connect != nil && req.Options != nil
+//@ modifies req.Options.*, ghost(self.$basic), ghost(self.$basicErr)
+//@ ensures self.$basic == old(self.$basic) + 1 && self.$basicErr == result && failing(result)
+
+//@ func field (Hooks).OnEnhancedAuth
+//@ params self, ctx, cli, req
+//@ requires req != nil && req.Connect != nil && req.Options != nil
+//@ modifies req.Options.*, ghost(self.$enh), ghost(self.$enhErr), ghost(self.$enhResp)
+//@ ensures self.$enh == old(self.$enh) + 1 && self.$enhErr == result1 && self.$enhResp == result0 && failing(result1)
+
+//@ func (*client).basicAuth
+//@ props C19
+//@ let H = client.server.hooks
+//@ requires client != nil && client.server != nil && conn != nil && authOpts != nil
+//@ modifies authOpts.*, ghost(H.$basic), ghost(H.$basicErr)
+//@ ensures [C19] client.server.hooks.OnBasicAuth == nil ==> err == nil && H.$basic == old(H.$basic)
+//@ ensures [C19] client.server.hooks.OnBasicAuth != nil ==> H.$basic == old(H.$basic) + 1 && err == H.$basicErr
+//@ ensures [C19] failing(err)
+
+//@ func (*client).enhancedAuth
+//@ props C19
+//@ let H = client.server.hooks
+//@ requires client != nil && client.server != nil && conn != nil && authOpts != nil
+//@ modifies authOpts.*, ghost(H.$enh), ghost(H.$enhErr), ghost(H.$enhResp)
+//@ ensures [C19] client.server.hooks.OnEnhancedAuth == nil ==> err != nil && H.$enh == old(H.$enh)
+//@ ensures [C19] client.server.hooks.OnEnhancedAuth != nil ==> H.$enh == old(H.$enh) + 1 && (err == nil ==> H.$enhErr == nil && resp != nil && resp == H.$enhResp) && (H.$enhErr != nil ==> err != nil)
+//@ ensures [C19] failing(err)
+
+// connectHandler (C19): which authentication path a CONNECT takes. v3.x and v5 without an Authentication Method go
+// through the basic hook (once); v5 with an Authentication Method never reaches the basic hook and fails unless an
+// enhanced hook exists and accepts; success (err == nil) implies the consulted hook returned success.
+//@ func (*client).connectHandler
+//@ props C19 C05
+//@ let H = client.server.hooks
+//@ let enhanced = conn.Version == 5 && conn.Properties.AuthMethod != nil
+//@ requires client != nil && client.server != nil && conn != nil && (conn.Version == 3 || conn.Version == 4 || conn.Version == 5) && (conn.Version == 5 ==> conn.Properties != nil) && client.config.MQTT.SessionExpiry >= 0
+//@ modifies client.version, all(AuthOptions.*), ghost(H.$basic), ghost(H.$basicErr), ghost(H.$enh), ghost(H.$enhErr), ghost(H.$enhResp)
+//@ ensures [C19] err == nil ==> authOpts != nil && client.version == conn.Version
+//@ ensures [C19] enhanced ==> H.$basic == old(H.$basic)
+//@ ensures [C19] enhanced && err == nil ==> old(client.server.hooks.OnEnhancedAuth) != nil && H.$enh == old(H.$enh) + 1 && H.$enhErr == nil && enhancedResp != nil && enhancedResp == H.$enhResp
+//@ ensures [C19] !enhanced ==> H.$enh == old(H.$enh) && enhancedResp == nil
+//@ ensures [C19] !enhanced && err == nil && old(client.server.hooks.OnBasicAuth) != nil ==> H.$basic == old(H.$basic) + 1 && H.$basicErr == nil
+//@ ensures [C19] H.$basic <= old(H.$basic) + 1 && H.$enh <= old(H.$enh) + 1
+//@ ensures [C19] failing(err)
+
+// NewConnackPacket (C05): Session Present is set iff the CONNECT asked to continue a session, one was resumed and
+// the connection is accepted.
+
+//@ func getRandomUUID trusted pure
+//@ func convertUint16 inline
+//@ func convertUint32 inline
+//@ func bool2Byte inline
+
+// setError records the first error of the connection and closes it; it does not touch the session state.
+//@ func (*client).setError trusted
+//@ requires client != nil
+//@ modifies client.err, ghost(client.$nout), ghost(client.$lastOut)
+
+// sendErrConnack (C14/C19): a refused CONNECT is answered with exactly one CONNACK carrying a failure code.
+//@ func sendErrConnack
+//@ props C19 C14
+//@ requires cli != nil && cli.out != nil && err != nil && (err.(type *codes.Error) ==> err.(*codes.Error) != nil)
+//@ modifies chanlog, all(codes.Error.Code)
+//@ ensures [C19] chansent(cli.out) == old(chansent(cli.out)) + 1 && chanlast(cli.out).(type *packets.Connack)
+//@ ensures [C19] old(failing(err)) ==> chanlast(cli.out).(*packets.Connack).Code != 0
+
+// OnAuth (re-authentication callback of enhanced auth), universally quantified.
+//@ ghost var authErr error
+//@ ghost var authResp *AuthResponse
+//@ func type OnAuth
+//@ params ctx, cli, req
+//@ requires req != nil
+//@ modifies $authErr, $authResp, req.Options.*
+//@ ensures $authErr == result1 && $authResp == result0 && failing(result1)
+
+//@ func (*client).authHandler
+//@ props C19
+//@ requires client != nil && auth != nil && onAuth != nil
+//@ modifies $authErr, $authResp, all(AuthOptions.*)
+//@ ensures [C19] err == nil ==> $authErr == nil && resp != nil && resp == $authResp
+//@ ensures [C19] $authErr != nil ==> err != nil
+//@ ensures [C19] failing(err)
+
+// register (function field): adds the client to the broker's active list; $registered counts the calls.
+//@ ghost field (client).registered int
+//@ func field (client).register
+//@ params self, connect, cli
+//@ modifies heap, ghost(self.$registered)
+//@ preserves all(packets.Connect.*), all(packets.Properties.*), all(ClientOptions.*), all(client.version), all(client.opts), all(client.out), all(client.connected), all(client.aliasMapper), all(client.serverReceiveMaximumQuota), all(client.pl), allcells(uint16), allcells(uint32), allcells(byte)
+//@ ensures self.$registered == old(self.$registered) + 1
+//@ ensures result1.(type *codes.Error) ==> result1.(*codes.Error) != nil
+
+//@ func (*client).newPacketIDLimiter
+//@ props C03
+//@ requires client != nil
+//@ modifies client.pl
+//@ ensures [C03] client.pl != nil && isfresh(client.pl) && client.pl.limit == limit && client.pl.used == 0 && client.pl.freePid == 1 && !client.pl.exit && limFixed(client.pl) && limOK(client.pl)
+//@ ensures [C03] forall o uint16 :: !locked(client.pl, o)
+
+// connectWithTimeOut: the pre-session packet loop (C19 gate, C03 window, C13 negotiated limits, C05 CONNACK).
+// The loop is verified iteration-wise (no loop invariant is needed: every clause is relative to the iteration in
+// which register is called); at(iter, e) is e at the start of that iteration.
+// Packets arriving on client.in were produced by the packet reader: a CONNECT has protocol level 3, 4 or 5
+// (Connect.Unpack refuses anything else) and v5 packets carry a property block.
+//@ spec func wfPacket(p packets.Packet) bool = (p.(type *packets.Connect) ==> p.(*packets.Connect) != nil && (p.(*packets.Connect).Version == 3 || p.(*packets.Connect).Version == 4 || p.(*packets.Connect).Version == 5) && (p.(*packets.Connect).Version == 5 ==> p.(*packets.Connect).Properties != nil)) && (p.(type *packets.Auth) ==> p.(*packets.Auth) != nil && p.(*packets.Auth).Properties != nil)
+//@ recv field (client).in ensures wfPacket(value)
+
+//@ func (*client).connectWithTimeOut
+//@ props C19 C03 C13 C05
+//@ loop 1 invariant client.server != nil && client.opts != nil && client.out != nil && client.in != nil && client.connected != nil && client.register != nil && client.rwc != nil && client.config.MQTT.SessionExpiry >= 0 && timeout != nil
+//@ loop 1 invariant err == nil && client.$registered == old(client.$registered)
+//@ loop 1 invariant conn != nil ==> authOpts != nil && client.version == conn.Version && (conn.Version == 3 || conn.Version == 4 || conn.Version == 5) && (conn.Version == 5 ==> conn.Properties != nil)
+//@ loop 1 invariant onAuth != nil ==> conn != nil && conn.Version == 5
+//@ let H = client.server.hooks
+//@ requires client != nil && client.server != nil && client.opts != nil && client.out != nil && client.in != nil && client.connected != nil && client.register != nil && client.rwc != nil
+//@ requires client.config.MQTT.SessionExpiry >= 0
+//@ modifies heap, ghost(client.$registered), chanlog, ghost(client.$nout), ghost(client.$lastOut), ghost(H.$basic), ghost(H.$basicErr), ghost(H.$enh), ghost(H.$enhErr), ghost(H.$enhResp), $authErr, $authResp
+//@ ensures [C19] client.$registered <= old(client.$registered) + 1
+//@ ensures [C19] client.$registered == old(client.$registered) ==> !ok || true
+//@ call client.register#1 assert [C19] err == nil && code == 0 && conn != nil && authOpts != nil && connect == conn
+//@ call client.register#1 assert [C19] p.(type *packets.Connect) || p.(type *packets.Auth)
+//@ call client.register#1 assert [C19] p.(type *packets.Connect) && !(conn.Version == 5 && conn.Properties.AuthMethod != nil) && at(iter, client.server.hooks.OnBasicAuth) != nil ==> H.$basic == at(iter, H.$basic) + 1 && H.$basicErr == nil
+//@ call client.register#1 assert [C19] p.(type *packets.Connect) && conn.Version == 5 && conn.Properties.AuthMethod != nil ==> H.$enh == at(iter, H.$enh) + 1 && H.$enhErr == nil && H.$enhResp != nil && !H.$enhResp.Continue
+//@ call client.register#1 assert [C19] p.(type *packets.Auth) ==> $authErr == nil && $authResp != nil && !$authResp.Continue
+//@ call client.register#1 assert [C19] client.$registered == old(client.$registered)
+//@ call client.newPacketIDLimiter#1 witness cfgInflight = authOpts.MaxInflight
+//@ call client.newPacketIDLimiter#1 witness hasRM = client.version == 5 && conn.Properties.ReceiveMaximum != nil
+//@ call client.newPacketIDLimiter#1 witness clientRM = *conn.Properties.ReceiveMaximum
+//@ call client.newPacketIDLimiter#1 witness recvMax = authOpts.ReceiveMax
+//@ call client.newPacketIDLimiter#1 witness aliasMax = authOpts.TopicAliasMax
+//@ call client.newPacketIDLimiter#1 assert [C03] client.version != 5 || conn.Properties.ReceiveMaximum == nil ==> limit == authOpts.MaxInflight
+//@ call client.newPacketIDLimiter#1 assert [C03] client.version == 5 && conn.Properties.ReceiveMaximum != nil ==> limit == min(authOpts.MaxInflight, *conn.Properties.ReceiveMaximum)
+//@ call client.register#1 assert [C13] client.version == 5 ==> len(client.aliasMapper) == int(client.opts.ServerTopicAliasMax) + 1 && client.serverReceiveMaximumQuota == client.opts.ReceiveMax
+//@ call client.register#1 assert [C13] client.opts.ReceiveMax == authOpts.ReceiveMax && client.opts.ServerTopicAliasMax == authOpts.TopicAliasMax && client.opts.ServerMaxPacketSize == authOpts.MaxPacketSize
+//@ call client.register#1 assert [C13] client.version == 5 && conn.Properties.MaximumPacketSize != nil ==> client.opts.ClientMaxPacketSize == *conn.Properties.MaximumPacketSize
+//@ call client.register#1 assert [C13] client.version == 5 && conn.Properties.TopicAliasMaximum != nil ==> client.opts.ClientTopicAliasMax == *conn.Properties.TopicAliasMaximum
+//@ call client.register#1 assert [C05] client.opts.SessionExpiry == authOpts.SessionExpiry
+//@ call Connect.NewConnackPacket#1 assert [C05] code == 0 && sessionReuse == sessionResume && c == conn
+//@ call sendErrConnack#1 assert [C19] client.$registered == old(client.$registered)
